@@ -356,6 +356,10 @@ pub fn scenarios(filter: &str) -> Vec<Scenario> {
         out.push(hugeweights('S'));
         out.push(hugeweights('U'));
     }
+    // key / value types other than the search engines' own (typex.rs)
+    if filter.starts_with("types") {
+        out.extend(crate::typex::scenarios().into_iter().filter(|s| s.name.starts_with(filter)));
+    }
     out
 }
 
